@@ -67,6 +67,7 @@ def _maybe_interrupt(site, chain, stage, k):
         open(os.path.join(sd, f"at_barrier_{chain}"), "w").close()
         for _ in range(3000):
             time.sleep(0.01)      # KeyboardInterrupt is delivered here by the real signal
+        open(os.path.join(sd, f"barrier_timeout_{chain}"), "w").close()   # tells the harness: inconclusive, not a verdict
         raise RuntimeError("probe: the expected SIGINT never arrived")
 
 
